@@ -2,4 +2,5 @@
 EXES = [
     {"name": "litmus", "sources": ["harness/litmus.cpp"]},
     {"name": "stop", "sources": ["harness/stop.cpp"]},
+    {"name": "cancel", "sources": ["harness/cancel.cpp"]},
 ]
